@@ -259,13 +259,34 @@ example : (match exLayer.factory with | .ok b => b.wfB && b.outputs.length == 1 
 example : ArgDen exLayer "a" (.inp "a") ∧ ArgDen exLayer "_k" (.node (.constant (.int 2)) []) ∧
     ArgDen exLayer "_p" (.node (.function "T._p" [] []) [.inp "a"]) := by
   have hfa : exLayer.fwdArg "a" = "a" := by decide +kernel
-  have ha : ArgDen exLayer "a" (.inp "a") := hfa ▸ ArgDen.pub (by decide +kernel)
+  have ha : ArgDen exLayer "a" (.inp "a") := hfa ▸ ArgDen.pub (by decide +kernel) (by decide +kernel)
   refine ⟨ha, .const (by decide +kernel) (by simp [exLayer]), ?_⟩
   refine .param { name := "_p", f := "T._p", args := ["a"] } (by decide +kernel) (by simp [exLayer]) rfl rfl ?_
   intro q hq
   simp only [List.zip_cons_cons, List.zip_nil_right, List.mem_singleton] at hq
   subst hq
   exact ha
+
+/-- non-vacuity (a test): `class Z(Transform): def y(x): ...; def z(y: Output): ...` - the argument of `z` is the layer's own output
+`y` (written `out:y`), it denotes `Z.y(x)`, so `z` computes `Z.z(Z.y(x))` (`node_factory_field`) and needs the input `x` -/
+def exOutLayer : RawLayer :=
+  { k := "transform", cls := "Z",
+    fields := [{ name := "y", f := "Z.y", args := ["x"], opt := true }, { name := "z", f := "Z.z", args := ["out:y"] }] }
+
+/-- the input `x` is NOT optional: the required field `z` needs it through the optional `y` (only the output `y` carries the mark) -/
+example : (match exOutLayer.factory with
+    | .ok b => b.wfB && b.inputs.length == 1 && b.optional.all (fun n => n.name != "x") && b.optional.length == 1
+    | .error _ => false) = true := by
+  decide +kernel
+
+example : ArgDen exOutLayer "out:y" (.node (.function "Z.y" [] []) [.inp "x"]) := by
+  have hfx : exOutLayer.fwdArg "x" = "x" := by decide +kernel
+  refine .out { name := "y", f := "Z.y", args := ["x"], opt := true } (by decide +kernel) (by decide +kernel) (by simp [exOutLayer])
+    (by decide +kernel) rfl ?_
+  intro q hq
+  simp only [List.zip_cons_cons, List.zip_nil_right, List.mem_singleton] at hq
+  subst hq
+  exact hfx ▸ ArgDen.pub (by decide +kernel) (by decide +kernel)
 
 /-- **Node level, from the class body: which fields `pipeline >> layer` exposes.**  Exactly (1) the fields the layer defines,
 (2) the names it inherits (`__inherit__` as a list or a bare string, `True`, everything but `__exclude__` - normalised as
